@@ -53,6 +53,17 @@ type c10Access struct {
 	unit     *c10Unit
 }
 
+// c10Share: a map/slice/pointer held in a field of a lock-owning struct is stored into a field of
+// (another object of) a lock-owning struct: the same referent is then reachable under two
+// different lock objects, which the table (locks identified by struct and field name) cannot see.
+type c10Share struct {
+	From string `json:"from"` // struct.field whose referent is shared
+	To   string `json:"to"`   // struct.field that receives it
+	Fn   string `json:"function"`
+	Pos  string `json:"pos"`
+	How  string `json:"how"`
+}
+
 type c10Unit struct {
 	name    string
 	roots   map[string]bool // roles given directly
@@ -107,6 +118,7 @@ type c10Extractor struct {
 	accesses []*c10Access
 	warnings []string
 	goSeen   map[string]bool
+	shares   []c10Share // reference-typed data of one lock owner stored into another lock owner
 }
 
 type c10Importer struct {
@@ -218,6 +230,7 @@ func c10Extract(dir string) (*c10Extractor, error) {
 	for _, fd := range decls {
 		w := &c10Walker{x: x, unit: x.units[c10DeclName(fd)], path: c10DeclName(fd), sig: map[string]bool{}, reassigned: c10Reassigned(info, fd.Body)}
 		w.aliases = c10ChanAliases(info, fd.Body, w.reassigned)
+		w.refAliases = c10RefAliases(info, fd.Body, w.reassigned)
 		w.block(fd.Body.List, c10Held{})
 	}
 	x.propagate()
@@ -422,6 +435,7 @@ type c10Walker struct {
 	dry        int
 	deferLocks c10Held // locks whose unlock has been deferred so far in this unit
 	aliases    map[types.Object]*ast.SelectorExpr // locals that are single-assignment copies of a channel field
+	refAliases map[types.Object]*ast.SelectorExpr // … of a map/slice/pointer field
 }
 
 func (w *c10Walker) block(list []ast.Stmt, h c10Held) (c10Held, bool) {
@@ -513,6 +527,25 @@ func (w *c10Walker) stmt(s ast.Stmt, h c10Held) (c10Held, bool) {
 		}
 		return h, false
 	case *ast.AssignStmt:
+		if len(s.Lhs) == len(s.Rhs) {
+			for i, l := range s.Lhs {
+				lsel, ok := l.(*ast.SelectorExpr)
+				if !ok {
+					continue
+				}
+				ls := w.x.info.Selections[lsel]
+				if ls == nil || ls.Kind() != types.FieldVal {
+					continue
+				}
+				towner, own := w.x.lockOwner(ls.Recv())
+				if !own {
+					continue
+				}
+				if from, base, ok := w.sharedRef(s.Rhs[i]); ok && base != types.ExprString(lsel.X) {
+					w.noteShare(from, towner+"."+lsel.Sel.Name, "assignment", lsel.Pos())
+				}
+			}
+		}
 		for _, r := range s.Rhs {
 			w.expr(r, false, h)
 		}
@@ -726,7 +759,7 @@ func (w *c10Walker) rootLit(fl *ast.FuncLit, name, role string) {
 	u := w.x.unit(name)
 	u.roots[role] = true
 	// the goroutine/task also calls what its body calls; the creator does not "call" it
-	nw := &c10Walker{x: w.x, unit: u, path: name, sig: map[string]bool{}, reassigned: w.reassigned, dry: w.dry, aliases: w.aliases}
+	nw := &c10Walker{x: w.x, unit: u, path: name, sig: map[string]bool{}, reassigned: w.reassigned, dry: w.dry, aliases: w.aliases, refAliases: w.refAliases}
 	for k, v := range w.sig {
 		nw.sig[k] = v // a signaller() check before the go statement also precedes the goroutine
 	}
@@ -795,6 +828,111 @@ func (w *c10Walker) record(sel *ast.SelectorExpr, owner, kind string, h c10Held)
 	w.x.accesses = append(w.x.accesses, a)
 }
 
+
+// lockOwner: named struct types of the package that have a sync.Mutex / sync.RWMutex field
+func (x *c10Extractor) lockOwner(t types.Type) (string, bool) {
+	if p, ok := t.Underlying().(*types.Pointer); ok {
+		t = p.Elem()
+	}
+	n, ok := t.(*types.Named)
+	if !ok || n.Obj().Pkg() != x.pkg {
+		return "", false
+	}
+	st, ok := n.Underlying().(*types.Struct)
+	if !ok {
+		return "", false
+	}
+	for i := 0; i < st.NumFields(); i++ {
+		if c10IsSyncType(st.Field(i).Type()) {
+			return n.Obj().Name(), true
+		}
+	}
+	return "", false
+}
+
+// sharedRef: is e (directly, or through a single-assignment local copy) a field of a lock-owning
+// struct whose value is a map, a slice, or a pointer to something that has no lock of its own?
+// Channels and pointers to lock owners may be shared freely (they synchronise themselves).
+func (w *c10Walker) sharedRef(e ast.Expr) (from string, base string, ok bool) {
+	var sel *ast.SelectorExpr
+	switch v := e.(type) {
+	case *ast.SelectorExpr:
+		sel = v
+	case *ast.Ident:
+		if obj := w.x.info.Uses[v]; obj != nil {
+			sel = w.refAliases[obj]
+		}
+	case *ast.ParenExpr:
+		return w.sharedRef(v.X)
+	}
+	if sel == nil {
+		return "", "", false
+	}
+	s := w.x.info.Selections[sel]
+	if s == nil || s.Kind() != types.FieldVal {
+		return "", "", false
+	}
+	owner, isOwner := w.x.lockOwner(s.Recv())
+	if !isOwner {
+		return "", "", false
+	}
+	switch t := s.Type().Underlying().(type) {
+	case *types.Map, *types.Slice:
+	case *types.Pointer:
+		if _, own := w.x.lockOwner(t); own {
+			return "", "", false
+		}
+	default:
+		return "", "", false
+	}
+	return owner + "." + sel.Sel.Name, types.ExprString(sel.X), true
+}
+
+func (w *c10Walker) noteShare(from, to, how string, pos token.Pos) {
+	if w.dry > 0 {
+		return
+	}
+	w.x.shares = append(w.x.shares, c10Share{From: from, To: to, Fn: w.unit.name, Pos: c10Pos(w.x.fset, pos), How: how})
+}
+
+// c10RefAliases: locals assigned exactly once from a field selector of map/slice/pointer type
+func c10RefAliases(info *types.Info, body *ast.BlockStmt, reassigned map[types.Object]bool) map[types.Object]*ast.SelectorExpr {
+	out := map[types.Object]*ast.SelectorExpr{}
+	ast.Inspect(body, func(n ast.Node) bool {
+		s, ok := n.(*ast.AssignStmt)
+		if !ok || len(s.Lhs) != len(s.Rhs) {
+			return true
+		}
+		for i, l := range s.Lhs {
+			id, ok := l.(*ast.Ident)
+			if !ok {
+				continue
+			}
+			sel, ok := s.Rhs[i].(*ast.SelectorExpr)
+			if !ok {
+				continue
+			}
+			tv, has := info.Types[sel]
+			if !has {
+				continue
+			}
+			switch tv.Type.Underlying().(type) {
+			case *types.Map, *types.Slice, *types.Pointer:
+			default:
+				continue
+			}
+			obj := info.Defs[id]
+			if obj == nil {
+				obj = info.Uses[id]
+			}
+			if obj != nil && !reassigned[obj] {
+				out[obj] = sel
+			}
+		}
+		return true
+	})
+	return out
+}
 
 // c10ChanAliases: locals assigned exactly once from a channel-typed field selector (chTask := c.chTask)
 func c10ChanAliases(info *types.Info, body *ast.BlockStmt, reassigned map[types.Object]bool) map[types.Object]*ast.SelectorExpr {
@@ -1005,6 +1143,18 @@ func (w *c10Walker) expr(e ast.Expr, write bool, h c10Held) {
 	case *ast.KeyValueExpr:
 		w.expr(e.Value, false, h)
 	case *ast.CompositeLit:
+		if tv, ok := w.x.info.Types[e]; ok {
+			if towner, own := w.x.lockOwner(tv.Type); own {
+				for _, el := range e.Elts {
+					if kv, ok := el.(*ast.KeyValueExpr); ok {
+						if from, _, ok := w.sharedRef(kv.Value); ok {
+							key := types.ExprString(kv.Key)
+							w.noteShare(from, towner+"."+key, "struct literal", kv.Pos())
+						}
+					}
+				}
+			}
+		}
 		for _, el := range e.Elts {
 			w.expr(el, false, h)
 		}
